@@ -1,13 +1,16 @@
 (* C16 — with a responsive broker every accepted operation completes; the session quiesces.  Statements only.
    Step-level facts about the engine (all states): poll()/recv() never return "idle"; an entry already sent on this
    connection is never picked again; a write step moves the recorded offset strictly forward or completes the entry,
-   a completed entry is flushed next, a flushed acknowledgement leaves its queue.  That these steps add up to
+   a completed entry is flushed next, a flushed acknowledgement leaves its queue.  The machine's engine loops
+   (drive(), and the flush loop inside publish / subscribe / unsubscribe) end without exhausting their fuel on EVERY
+   transport — no packet is written for ever or twice — within work + 5 engine steps (C16_drive_loop_terminates,
+   C16_flush_outbound_terminates, C16_op_drive_terminates).  That these steps add up to
    quiescence within a bounded number of polls and I/O calls from every reachable state is checked on the
    implementation and the model by the drain suites (any generated history, then: transport healed, broker
    answering everything, reconnect, 40 polls) with an I/O watchdog. *)
 From Coq Require Import List NArith.
 From Minimq Require Import Bytes Varint Utf8 Props Ser De Reader Arena Core Machine.
-From Minimq Require Import Status Progress WireInv Wire Measure.
+From Minimq Require Import Status Progress WireInv Wire Measure Wire Terminate Run.
 Import ListNotations.
 Open Scope N_scope.
 
@@ -55,6 +58,27 @@ Proof. exact progress_decreases_work. Qed.
 Theorem C16_reachable_invariant : forall c, WInv (w_sess (Run.run_case c)).
 Proof. exact reachable_WInv. Qed.
 
+(* the engine loops terminate, whatever the transport does: with fuel above work + PINGREQ budget (at most 5) the
+   loop never runs out — every iteration either ends the loop (idle, error, cancelled) or strictly lowers the measure *)
+Theorem C16_drive_loop_terminates : forall fuel adv w,
+  WInv (w_sess w) -> NA w -> M (w_sess w) < N.of_nat fuel -> snd (drive_loop fuel adv w) <> OFuel.
+Proof. exact drive_loop_terminates. Qed.
+
+Theorem C16_flush_outbound_terminates : forall fuel w,
+  WInv (w_sess w) -> M (w_sess w) < N.of_nat fuel -> snd (flush_outbound fuel w) <> OFuel.
+Proof. exact flush_outbound_terminates. Qed.
+
+Theorem C16_op_drive_terminates : forall fuel w,
+  WInv (w_sess w) -> NAl w -> M (w_sess w) < N.of_nat fuel -> snd (op_drive fuel w) <> OFuel.
+Proof. exact op_drive_terminates. Qed.
+
+(* a resumed connection with a retained publish to replay: the premises hold, drive() sends it and the work is 0 *)
+Theorem C16_terminate_example :
+  w_live ex_resumed = true /\ work (s_ob (w_sess ex_resumed)) = 13 /\ M (w_sess ex_resumed) < N.of_nat FUEL /\
+  packet_available (s_reader (w_sess ex_resumed)) = false /\
+  snd (op_drive FUEL ex_resumed) = ODone None /\ work (s_ob (w_sess (fst (op_drive FUEL ex_resumed)))) = 0.
+Proof. exact terminate_example. Qed.
+
 Print Assumptions C16_poll_never_returns_idle.
 Print Assumptions C16_sent_entries_not_resent.
 Print Assumptions C16_write_step_advances.
@@ -64,3 +88,7 @@ Print Assumptions C16_write_step_decreases_work.
 Print Assumptions C16_flush_step_decreases_work.
 Print Assumptions C16_progress_decreases_work.
 Print Assumptions C16_reachable_invariant.
+Print Assumptions C16_drive_loop_terminates.
+Print Assumptions C16_flush_outbound_terminates.
+Print Assumptions C16_op_drive_terminates.
+Print Assumptions C16_terminate_example.
